@@ -229,8 +229,17 @@ pub fn run(subj: Box<dyn Subject>) -> EndKind {
             }
             Act::Op(o) => {
                 with(|w| w.ops_left -= 1);
-                subj.as_mut().unwrap().do_op(o);
-                subj.as_mut().unwrap().after_step();
+                let s = subj.as_mut().unwrap();
+                let r = catch_unwind(AssertUnwindSafe(|| {
+                    s.do_op(o);
+                    s.after_step();
+                }));
+                if let Err(p) = r {
+                    let m = panic_message(&p);
+                    with(|w| w.violate(home, || format!("group operation {} panicked: {}", o, m)));
+                    end_kind = EndKind::Panicked;
+                    break;
+                }
                 want_poll = true;
                 ended = false;
             }
